@@ -123,5 +123,7 @@ theorem refinesU1 (k0 : Nat) : Refines (kindU1 k0) (kindSpec false false [k0]) (
   indexes := mrEnum_eq _
   keys := rfl
   len := by simp [kindU1, kindSpec, prodDims]
+  resumeIdx := mrResume_eq _
+  resumeKeys := rfl
 
 end SLV.MArr
